@@ -134,7 +134,8 @@ func propC05(j *Job) {
 	// the window the association derives from every class of configured receive buffer size
 	wins := []uint32{2048, 4032, 4160}
 	seenW := map[uint32]bool{}
-	for _, rb := range []uint32{0, 1, 1500, 65536, initialRecvBufSize, 8 << 20, 16 << 20, 64 << 20, 1 << 30, 1<<31 - 1, 1 << 31, 0xFFFFFFFF} {
+	// (256 KiB and 512 KiB + 4000: offsets that are not multiples of 64 while offset/64 is a power of two)
+	for _, rb := range []uint32{0, 1, 1500, 65536, 256 << 10, 512<<10 + 4000, initialRecvBufSize, 8 << 20, 16 << 20, 64 << 20, 1 << 30, 1<<31 - 1, 1 << 31, 0xFFFFFFFF} {
 		if w := getMaxTSNOffset(rb); !seenW[w] {
 			seenW[w] = true
 			wins = append(wins, w)
@@ -152,6 +153,11 @@ func propC05(j *Job) {
 			for _, base := range []uint32{1000, 0xFFFFFFFF - w/2} {
 				c05DensestGaps(j, w, base)
 			}
+		}
+	}
+	if j.mine(1) {
+		for _, w := range []uint32{64, 2048} {
+			c05RingReuse(j, w)
 		}
 	}
 	item := 0
@@ -317,7 +323,7 @@ func compareRPQ(q *receivePayloadQueue, m *rpqModel, prevCum uint32) string {
 // lets the association build and serialise the SACK: an independent decoder must read back a
 // SACK that names exactly the accepted TSNs.
 func c05DensestGaps(j *Job, wReq uint32, base uint32) {
-	a := &Association{payloadQueue: newReceivePayloadQueue(wReq), myMaxNumInboundStreams: 1}
+	a := &Association{payloadQueue: newReceivePayloadQueue(wReq), myMaxNumInboundStreams: 1, mtu: initialMTU}
 	a.payloadQueue.init(base)
 	W := a.payloadQueue.maxTSNOffset
 	want := map[uint32]bool{}
@@ -461,6 +467,71 @@ func c05FullBuffer(j *Job) {
 			for _, hole := range []bool{true, false} {
 				for _, ahead := range []uint32{0, 1, 1<<15 - 4, 1<<15 - 3} {
 					j.Explore(fmt.Sprintf("AV/backlog%d/free%d/hole%v/ahead%d", backlog, free, hole, ahead), c05FullBufferScenario(backlog, free, hole, ahead), Budget{}, nil)
+				}
+			}
+		}
+	}
+}
+
+// c05RingReuse: chunks queued behind a hole and straddling a 64-TSN word of the bitmap are
+// swept away by a skip (FORWARD-TSN) that reaches beyond all of them; the traffic then goes on
+// in order for exactly one ring length, and at the TSN that shares a bitmap slot with one of the
+// swept chunks a packet is lost while its successors arrive.  Every step is compared with the
+// reference model (cumulative point, membership, gap blocks): a slot that was not wiped makes
+// the lost TSN look received one ring later.
+func c05RingReuse(j *Job, wReq uint32) {
+	probe := newReceivePayloadQueue(wReq)
+	ring := uint32(len(probe.tsnBitmask)) * 64
+	for align := uint32(0); align < 64; align += 7 {
+		for _, span := range []uint32{3, 40, 70, 130} {
+			base := uint32(0xFFFFFF00) + align
+			caseName := fmt.Sprintf("ring-reuse/w%d/align%d/span%d", probe.maxTSNOffset, align, span)
+			j.Stats.Cases++
+			j.Stats.Execs++
+			q := newReceivePayloadQueue(wReq)
+			q.init(base)
+			m := &rpqModel{cum: base, set: map[uint32]bool{}, w: q.maxTSNOffset}
+			var hist []string
+			step := func(o rpqOp) bool {
+				prev := m.cum
+				hist = append(hist, o.String())
+				if len(hist) > 12 {
+					hist = hist[len(hist)-12:]
+				}
+				applyRealRPQ(q, o)
+				if o.fwd {
+					m.fwd(m.cum + uint32(o.delta))
+				} else {
+					m.data(m.cum + uint32(o.delta))
+				}
+				j.Stats.Steps++
+				if msg := compareRPQ(q, m, prev); msg != "" {
+					j.failSeq("rpq.member", caseName, fmt.Sprintf("%s (ring of %d TSNs; last operations %v)", msg, ring, hist), nil)
+					return false
+				}
+				return true
+			}
+			ok := true
+			// chunks behind a hole: cum+2 .. cum+1+span
+			for d := uint32(2); d <= 1+span && ok; d++ {
+				ok = step(rpqOp{delta: int64(d)})
+			}
+			// the skip reaches two beyond the highest of them
+			if ok {
+				ok = step(rpqOp{fwd: true, delta: int64(span + 3)})
+			}
+			// one ring of in-order traffic, except that every 5th TSN arrives one late
+			start := m.cum
+			for ok && m.cum-start < ring+span+8 {
+				if (m.cum-start)%5 == 4 {
+					if ok = step(rpqOp{delta: 2}); ok {
+						ok = step(rpqOp{delta: 3})
+					}
+					if ok {
+						ok = step(rpqOp{delta: 1})
+					}
+				} else {
+					ok = step(rpqOp{delta: 1})
 				}
 			}
 		}
